@@ -51,18 +51,19 @@ theorem buildOpt_spec {gL g : Graph} (hb : Bounded g) (hfL : Frame gL g) (lt lp 
       (slot.isSome = true → g.next + 3 ≤ g'.next) ∧ g'.next ≤ g.next + 4 ∧
       SlotBuilt gL lt g' g.next g'.next slot w? groups lpOf ∧
       GroupsOk gL lt lpOf g' (buildGroupsOpt groups slot g.next) ∧
-      g'.trains = g.trains ++ buildTrainsOpt groups slot g.next lt lp := by
+      g'.trains = g.trains ++ buildTrainsOpt groups slot g.next lt lp ∧
+      (∀ u k, g'.inputOf u k = g.inputOf u k) ∧ (Wired g → Wired g') := by
   cases slot with
   | none =>
-    refine ⟨none, g, rfl, hb, Frame.refl g, ?_, ?_, ⟨?_, fun _ => rfl⟩, hG, ?_⟩
+    refine ⟨none, g, rfl, hb, Frame.refl g, ?_, ?_, ⟨?_, fun _ => rfl⟩, hG, ?_, fun _ _ => rfl, fun h => h⟩
     · intro h; cases h
     · omega
     · intro a h; cases h
     · simp [buildTrainsOpt]
   | some a =>
-    obtain ⟨w, g', hrun, hb', hf', h3, h4, hbuilt, hwu, hact, hG', htr⟩ :=
+    obtain ⟨w, g', hrun, hb', hf', h3, h4, hbuilt, hwu, hact, hG', htr, hin, hwr⟩ :=
       build_spec hb hfL lt lp lpOf groups a hG (hlp a rfl)
-    refine ⟨some w, g', ?_, hb', hf', fun _ => h3, h4, ⟨?_, by intro h; cases h⟩, hG', htr⟩
+    refine ⟨some w, g', ?_, hb', hf', fun _ => h3, h4, ⟨?_, by intro h; cases h⟩, hG', htr, hin, hwr⟩
     · show Run (do let (w, gs) ← build groups a lt lp; pure (some w, gs)) g _ g'
       exact Run.bind hrun (Run.pure _ _)
     · intro a' ha'
@@ -107,6 +108,22 @@ def edgeHit (w? : Option WRef) (q : PubRef) (u k : Nat) : Option PubRef :=
 theorem edgeHit_self (w : WRef) (q) : edgeHit (some w) q w.uid 0 = some q := by simp [edgeHit]
 theorem edgeHit_ne (w : WRef) (q u k) (h : w.uid ≠ u) : edgeHit (some w) q u k = none := by simp [edgeHit, h]
 
+theorem edgeHit_some {w? : Option WRef} {q q' : PubRef} {u k : Nat} (h : edgeHit w? q u k = some q') :
+    ∃ w, w? = some w ∧ w.uid = u ∧ q' = q := by
+  cases w? with
+  | none => simp [edgeHit] at h
+  | some w =>
+    unfold edgeHit at h
+    simp only at h
+    split at h
+    · rename_i hc; cases h; exact ⟨w, rfl, hc.1, rfl⟩
+    · cases h
+
+theorem or_some {α} {a b : Option α} {q : α} (h : a.or b = some q) : a = some q ∨ b = some q := by
+  cases a with
+  | none => right; simpa using h
+  | some x => left; simpa using h
+
 theorem inputOf_pushEdgeOpt (g : Graph) (w? : Option WRef) (q : PubRef) (u k : Nat) :
     (g.pushEdgeOpt (edgeOf w? q)).inputOf u k = (g.inputOf u k).or (edgeHit w? q u k) := by
   cases w? with
@@ -145,6 +162,12 @@ theorem Frame.pushEdgeOpt {g0 g} (hf : Frame g0 g) (w? : Option WRef) (q : PubRe
   cases w? with
   | none => exact hf
   | some w => exact hf.pushEdge _ (h w rfl)
+
+theorem Wired.pushEdgeOpt {g} (hw : Wired g) (w? : Option WRef) (q : PubRef) (hq : q.node < g.next)
+    (h : ∀ w, w? = some w → g.inputOf w.uid 0 = none) : Wired (g.pushEdgeOpt (edgeOf w? q)) := by
+  cases w? with
+  | none => exact hw
+  | some w => exact hw.pushEdge _ hq (h w rfl)
 
 theorem run_extendOpt_worker (s : Segment) (w? : Option WRef) (g : Graph)
     (h : ∀ w, w? = some w → g.inputOf w.uid 0 = none) :
